@@ -26,7 +26,9 @@ ASSUMPTIONS = ['import after export is compared to rtol 1e-12 (jackknife) / 1e-9
 EXHAUSTIVE = True
 REPEAT = 2      # every case is evaluated twice in the same process: the second verdict must equal the first (call-history oracle)
 CHUNK = 4
-DATA = ['white', 'ar1', 'alt', 'count', 'const', 'precise']      # precise: relative fluctuations of a few 1e-4 (nearly, but not, constant samples)
+DATA = ['white', 'ar1', 'alt', 'count', 'const', 'precise', 'tiny', 'tinyzero', 'huge', 'bigmean']      # precise: relative fluctuations of a few 1e-4 (nearly, but not, constant samples)
+
+SCALED = {'tiny': (1e-9, 1e-13), 'tinyzero': (0.0, 1e-13), 'huge': (3e9, 1e9), 'bigmean': (1e6, 1e-3)}
 
 
 def idl_for(kind, n):
@@ -65,6 +67,10 @@ def mk(pe, n, ik, d, key, name='A|r1'):
     cfgs = idl_for(ik, n)
     if d == 'precise':
         x = 0.5937 + 2e-4 * alpha.rng('c13', key, n, ik, d).normal(size=len(cfgs))
+    elif d in SCALED:
+        # other magnitudes: 1e-9 +- 1e-13, 0 +- 1e-13, 3e9 +- 1e9, 1e6 +- 1e-3
+        m, sg = SCALED[d]
+        x = m + sg * alpha.rng('c13', key, n, ik, d).normal(size=len(cfgs))
     else:
         x = alpha.data(d, cfgs, alpha.rng('c13', key, n, ik, d), 1.0 if d != 'count' else 0.0, 0.3)
     return pe.Obs([x], [name], idl=[alpha.idl_carrier(cfgs)]), np.asarray(x, dtype=float), cfgs
@@ -159,7 +165,8 @@ def run_case(case):
                 var_j = (n - 1) / n * math.fsum((ji - np.mean(j[1:])) ** 2 for ji in j[1:])
                 o.gamma_method(S=0)
                 naive = np.var(x, ddof=1) / n
-                tol = 1e-10 * max(naive, 1e-300) + 1e-28 * sc ** 2
+                # differences of the exported samples carry the rounding of the samples themselves (relevant for a large mean with small fluctuations)
+                tol = 1e-10 * max(naive, 1e-300) + 1e-28 * sc ** 2 + 1e-14 * sc * math.sqrt(naive * n)
                 if abs(var_j - o.dvalue ** 2) > tol or abs(var_j - naive) > tol:
                     acc.fail('jackknife:variance', sub, 'jackknife variance %r, S=0 error^2 %r, var/n %r' % (var_j, o.dvalue ** 2, naive))
                     continue
@@ -168,7 +175,7 @@ def run_case(case):
     elif k == 'boot':
         n = case['n']
         for ik in ('contiguous', 'irregular'):
-            for d in ('white', 'count'):
+            for d in ('white', 'count', 'huge', 'bigmean', 'tiny'):
                 o, x, cfgs = mk(pe, n, ik, d, 'b')
                 for ns in (1, n - 1, n, n + 3, 50):
                     tables = {
